@@ -16,80 +16,3 @@ Proof.
   cbn [nest]. rewrite zrange_1. cbn [map]. rewrite <- (flat_map_singleton (nest R)) at 2.
   apply flat_map_ext_in. intros o _. f_equal. lia.
 Qed.
-
-Definition sw (ut : Z * Z) : dim := (snd ut, fst ut).
-Definition D (acc : list Z * list Z) : list dim := combine (snd acc) (fst acc).
-Definition inv (acc : list Z * list Z) : Prop :=
-  List.length (fst acc) = List.length (snd acc) /\ Forall (fun b => 0 <= b) (fst acc).
-
-Lemma combine_app_eq {A B} (a1 a2 : list A) (b1 b2 : list B) :
-  List.length a1 = List.length b1 -> combine (a1 ++ a2) (b1 ++ b2) = combine a1 b1 ++ combine a2 b2.
-Proof.
-  revert b1; induction a1 as [|x a1 IH]; intros [|y b1] H; simpl in H; try discriminate; [reflexivity|].
-  simpl. f_equal. apply IH. lia.
-Qed.
-
-Lemma rev_cons_inv {A} (l : list A) x r : rev l = x :: r -> l = rev r ++ [x].
-Proof. intros H. rewrite <- (rev_involutive l), H. reflexivity. Qed.
-
-Lemma canon_step_ok acc u t R :
-  inv acc -> 0 <= u ->
-  inv (canon_step acc (u, t)) /\
-  nest (D acc ++ (t, u) :: R) = nest (D (canon_step acc (u, t)) ++ R).
-Proof.
-  destruct acc as [nub nts]. intros [Hl Hp] Hu. unfold canon_step, D, inv in *. cbn [fst snd] in *.
-  destruct (u =? 0) eqn:E0.
-  - apply Z.eqb_eq in E0. subst u. cbn [fst snd]. split.
-    + split; [rewrite !app_length; simpl; lia|]. apply Forall_app; split; [exact Hp|repeat constructor; lia].
-    + rewrite combine_app_eq by lia. rewrite <- app_assoc. apply nest_app_congr. cbn [combine app].
-      rewrite !nest_bound0. reflexivity.
-  - destruct (u =? 1) eqn:E1.
-    + apply Z.eqb_eq in E1. subst u. cbn [fst snd]. split; [split; assumption|].
-      apply nest_app_congr. apply nest_bound1.
-    + assert (Happ : inv (nub ++ [u], nts ++ [t]) /\
-                     nest (combine nts nub ++ (t, u) :: R) = nest (combine (nts ++ [t]) (nub ++ [u]) ++ R)).
-      { unfold inv. cbn [fst snd]. split.
-        - split; [rewrite !app_length; simpl; lia|]. apply Forall_app; split; [exact Hp|repeat constructor; lia].
-        - rewrite combine_app_eq by lia. rewrite <- app_assoc. reflexivity. }
-      destruct (rev nub) as [|lu ru] eqn:Eu; [exact Happ|].
-      destruct (rev nts) as [|lt rt] eqn:Et; [exact Happ|].
-      destruct (lu * lt =? t) eqn:Em; [|exact Happ].
-      apply Z.eqb_eq in Em. apply rev_cons_inv in Eu, Et. subst nub nts t.
-      rewrite !app_length in Hl. simpl in Hl.
-      apply Forall_app in Hp as [Hp1 Hp2]. inversion Hp2 as [|? ? Hlu _]; subst.
-      cbn [fst snd]. split.
-      * split; [rewrite !app_length; simpl; lia|]. apply Forall_app; split; [exact Hp1|repeat constructor; nia].
-      * rewrite !combine_app_eq by lia. rewrite <- !app_assoc. apply nest_app_congr. cbn [combine app].
-        replace (lu * lt) with (lt * lu) by lia. rewrite nest_merge by lia.
-        replace (u * lu) with (lu * u) by lia. reflexivity.
-Qed.
-
-Lemma fold_canon_ok : forall l acc R,
-  inv acc -> Forall (fun ut => 0 <= fst ut) l ->
-  inv (fold_left canon_step l acc) /\
-  nest (D acc ++ map sw l ++ R) = nest (D (fold_left canon_step l acc) ++ R).
-Proof.
-  induction l as [|[u t] l IH]; intros acc R Hi Hl.
-  - simpl. auto.
-  - inversion Hl as [|? ? Hu Hl']; subst. cbn [fst] in Hu.
-    destruct (canon_step_ok acc u t (map sw l ++ R) Hi Hu) as [Hi' Hn].
-    destruct (IH _ R Hi' Hl') as [Hi'' Hn'].
-    cbn [fold_left map app]. split; [exact Hi''|]. exact (eq_trans Hn Hn').
-Qed.
-
-Lemma map_sw_combine : forall ub ts, map sw (combine ub ts) = combine ts ub.
-Proof. induction ub as [|u ub IH]; intros [|t ts]; simpl; try reflexivity. f_equal. apply IH. Qed.
-
-Theorem canonicalize_words :
-  forall p spats, Forall (fun b => 0 <= b) (sp_ub p) ->
-  pattern_words (sp_canonicalize p) spats = pattern_words p spats.
-Proof.
-  intros p spats Hb. unfold sp_canonicalize. destruct (existsb _ (sp_ss p)); [reflexivity|].
-  destruct (fold_left canon_step (combine (sp_ub p) (sp_ts p)) ([], [])) as [u t] eqn:Ef.
-  unfold pattern_words, pattern_dims. cbn [sp_ss sp_ts sp_ub]. apply nest_app_congr.
-  assert (Hl : Forall (fun ut : Z * Z => 0 <= fst ut) (combine (sp_ub p) (sp_ts p))).
-  { rewrite Forall_forall in *. intros [a b] Hin. apply in_combine_l in Hin. cbn [fst]. apply Hb. exact Hin. }
-  destruct (fold_canon_ok _ ([], []) [] (conj eq_refl (Forall_nil _)) Hl) as [_ Hn].
-  rewrite Ef in Hn. unfold D in Hn. cbn [fst snd combine app] in Hn. rewrite !app_nil_r in Hn.
-  rewrite map_sw_combine in Hn. symmetry. exact Hn.
-Qed.
